@@ -254,6 +254,17 @@ var c07Fixed = []string{
 	"print é",
 	"print 1 é",
 	"print 漢",
+	"print 😀",
+	"😀",
+	"print 1 😀 2",
+	"var x = 1\n😀print x",
+	"print \"😀\" # 😀\nprint 2 😀",
+	"\ufeffprint 1",
+	"\ufeff",
+	"\ufeff# c\nvar x = 2\nprint x",
+	"print 1 \ufeff",
+	"def b {\U0001F600}",
+	"print 1;\U00010000",
 	"def b \"näme\" { f = \"ü\" } bind b -> struct",
 	"print 1 == 2 != 3 <= 4 >= 5 -> 6",
 	"bind b:all -> slice",
